@@ -514,6 +514,12 @@ def run(rep, tier):
                   ctor_calls_fnm, 'the creator hands the nested machine\'s whole list on to the top-most machine' if closed else
                   'the creator registers only the machine itself with the top-most machine: a machine nested two levels deep stays in the intermediate machine\'s list, is referenced by its <invoke> entry but never defined - the emitted C does not compile'))
 
+    # R04.17 (b): machines are emitted under the prefix derived from their document's md5: one document invoked from two places is emitted once
+    dedupe = any(x_['k'] in ('CXXOperatorCallExpr', 'BinaryOperator') and x_.get('op') in ('==', '!=') and sum(
+        1 for y_ in sub(x_) if y_['k'] == 'MemberExpr' and y_.get('ref', {}).get('name') in ('_md5', '_prefix')) >= 2 for x_ in fnm.walk())
+    rep.check(dedupe, 'R04.17', 'findNestedMachines|one definition per prefix', fnm.where(), 'registration in the list the writers walk %s' % (
+        'is guarded by a comparison of the machines\' md5 / prefix' if dedupe else 'does NOT look whether a machine with the same md5 (hence the same symbol prefix) is registered already: the same child invoked from two places is emitted twice - redefinition of every symbol of the child'))
+
     # ---- R04.15 the global script is the root's entry code: it runs after the root's data was initialised
     cg0 = cgs[alts[0]]
     st0 = cg0.fn('uscxml_step')
@@ -587,6 +593,57 @@ def run(rep, tier):
     from ..report import Renamed
     from . import C05
     C05.audit_rules(Renamed(rep, {'R05.10': 'R04.20'}), fb)
+    # ---- R04.22 the local sets of the emitted step function are written before they are read, on every path
+    rep.rule('R04.22', 'no read of indeterminate memory: every local bit array of the emitted uscxml_step is cleared or copied into before any other use on every CFG path from the function entry (the first step takes the PRISTINE short-cut past the selection phase; MemorySanitizer aborts every generated machine there otherwise)')
+    for alt22, cg22 in cgs.items():
+        st22 = cg22.fn('uscxml_step')
+        g22 = cfgm.CFG(st22)
+        arrays22 = {}
+        for n_ in st22.walk():
+            if n_['k'] == 'DeclStmt':
+                for d_ in n_.get('decls', []):
+                    if 'lid' in d_ and '[' in (d_.get('t') or '') and d_.get('init') is None:
+                        arrays22[d_['lid']] = d_['name']
+        rep.minimum('R04.22', len(arrays22), 4, 'local arrays of the emitted step function')
+        for lid_, name_ in sorted(arrays22.items(), key=lambda kv: kv[1]):
+            inits_, uses_ = [], []
+            for n_ in st22.walk():
+                if n_['k'] == 'CallExpr' and n_.get('callee', {}).get('q') in ('bit_clear_all', 'bit_copy', 'memset', 'memcpy') and len(n_.get('c', [])) > 1 and any(
+                        y['k'] == 'DeclRefExpr' and y.get('ref', {}).get('lid') == lid_ for y in sub(n_['c'][1])):
+                    inits_.append(n_)
+            init_ids = {y['id'] for n_ in inits_ for y in sub(n_) if 'id' in y}
+            for n_ in st22.walk():
+                if n_['k'] == 'DeclRefExpr' and n_.get('ref', {}).get('lid') == lid_ and n_['id'] not in init_ids:
+                    x_ = n_
+                    while x_ is not None and x_['id'] not in g22.pos:
+                        x_ = st22.parent(x_)
+                    if x_ is not None:
+                        uses_.append(x_)
+            if not inits_:
+                rep.fail('R04.22', 'emitted step|%s' % name_, 'generated uscxml_step', 'the local array %s is never cleared or copied into' % name_)
+                continue
+            w_ = g22.can_reach(g22.entry_pos(), [u_['id'] for u_ in uses_], avoid=[n_['id'] for n_ in inits_]) if uses_ else None
+            rep.check(w_ is None, 'R04.22', 'emitted step|%s' % name_, 'generated uscxml_step line %s' % (w_[-1][1] if w_ and isinstance(w_[-1], tuple) else '?'), 'the local array %s %s' % (
+                name_, 'is written before every use' if w_ is None else 'is READ before it is cleared on a path from the function entry (the PRISTINE short-cut to ESTABLISH_ENTRY_SET): indeterminate memory, MemorySanitizer aborts the first step of every generated machine'))
+        break
+    # ---- R04.23 element text is assembled over all text and CDATA children, in document order
+    rep.rule('R04.23', 'the tables carry the text the interpreter reads: the content of <data>, <assign> and <script> is assembled over all text and CDATA children in document order - not the first text node (lost after a comment, NULL for CDATA), not all text nodes before all CDATA nodes')
+    firsts, regroup = [], []
+    for f_ in fb.funcs.values():
+        if not f_.q.startswith('uscxml::ChartToC::'):
+            continue
+        tl = {d_['lid'] for n_ in f_.walk() if n_['k'] == 'DeclStmt' for d_ in n_.get('decls', []) if 'lid' in d_ and isinstance(d_.get('init'), dict) and any(
+            y.get('callee', {}).get('q', '').endswith('DOMUtils::filterChildType') for y in sub(d_['init']))}
+        for n_ in f_.walk():
+            if n_['k'] == 'CXXMemberCallExpr' and n_.get('callee', {}).get('q', '').split('::')[-1] == 'front' and n_['c'][0].get('c') and strip(n_['c'][0]['c'][0]).get('ref', {}).get('lid') in tl:
+                firsts.append(n_)
+            if n_['k'] == 'CXXMemberCallExpr' and n_.get('callee', {}).get('q', '').split('::')[-1] in ('splice', 'insert', 'merge') and n_['c'][0].get('c') and strip(n_['c'][0]['c'][0]).get('ref', {}).get('lid') in tl and any(
+                    y.get('callee', {}).get('q', '').endswith('DOMUtils::filterChildType') for y in sub(n_)):
+                regroup.append(n_)
+    rep.check(not firsts and not regroup, 'R04.23', 'ChartToC|element text', locstr((firsts or regroup)[0]) if (firsts or regroup) else 'src/uscxml/transform/ChartToC.cpp', 'element text %s' % (
+        'is assembled over all text and CDATA children in document order' if not firsts and not regroup else
+        ('is the FIRST text node at %d site(s): <data id="x"> <!-- c --> { 1, 2, 3 } </data> gets no content, a CDATA-only <data> NULL' % len(firsts) if firsts else '') +
+        (' text nodes and CDATA nodes are collected in two passes and concatenated: <script>a <![CDATA[ b ]]> c</script> runs as a c b' if regroup else '')))
     # ---- R04.21 names of emitted functions are C identifiers
     rep.rule('R04.21', 'the emitted file compiles for every id: where ChartToC builds the name of an emitted function from DOMUtils::idForNode, the id passes through an injective mapping onto C identifiers (idForNode replaces only `.` and `,` and uses the qualified tag name for elements without id)')
     raw_ids = []
